@@ -201,6 +201,7 @@ def main(chk, argv=None):
     ap.add_argument("--procs", type=int, default=int(os.environ.get("VERIF_PROCS", 0)))
     ap.add_argument("--budget", type=float, default=float(os.environ.get("VERIF_BUDGET_S", 0)))
     ap.add_argument("--one", type=int, help="debug: run a single run index verbosely")
+    ap.add_argument("--start", type=int, default=0, help="first run index of the batch (default 0)")
     ap.add_argument("--no-evidence", action="store_true")
     a = ap.parse_args(argv)
     seed = int(os.environ.get("VERIF_SEED") or 0)
@@ -236,7 +237,7 @@ def main(chk, argv=None):
     print(f"[{chk.PROP}] tier={a.tier} VERIF_SEED={seed} runs<={runs} budget={budget:.0f}s "
           f"procs={procs}", flush=True)
     ndig = tier.get("determinism_runs", 32)
-    out = _batch(chk, seed, a.tier, runs, budget, procs, chunk, ndig, 6)
+    out = _batch(chk, seed, a.tier, runs, budget, procs, chunk, ndig, 6, a.start)
     wall_batch = time.time() - t0
 
     status = 0
@@ -352,12 +353,12 @@ def _pool(procs):
     return ProcessPoolExecutor(max_workers=procs, mp_context=ctx, initializer=_pin)
 
 
-def _batch(chk, seed, tier, runs, budget, procs, chunk, ndig, nsamples):
+def _batch(chk, seed, tier, runs, budget, procs, chunk, ndig, nsamples, start=0):
     t0 = time.time()
     out = {"runs": 0, "stats": {}, "nontrivial": set(), "isigs": set(), "states": set(),
            "violations": [], "digests": {}, "samples": [], "sim_time": 0.0, "steps": 0,
            "harness": [], "stopped_by_budget": False}
-    starts = list(range(0, runs, chunk))
+    starts = list(range(start, runs, chunk))
     try:
         with _pool(procs) as ex:
             pending = {}
